@@ -181,14 +181,17 @@ def r2(cx, chk, cfg, F):
                 v = e["val"]
                 nxt = st[k + 1][0] if k + 1 < len(st) else len(p.events)
                 prv = st[k - 1][0] if k else 0
-                if v == ("bin", "Add", cur, ("const", "usize", "1")) and cur != ("const", "usize", "0"):
+                folded = ("const", "usize", str(int(cur[2]) + 1)) if isinstance(cur, tuple) and cur[0] == "const" and str(cur[2]).isdigit() else None
+                if (v == ("bin", "Add", cur, ("const", "usize", "1")) and cur != ("const", "usize", "0")) or (folded is not None and v == folded and k > 0):
                     kinds.setdefault(path, set()).add("inc")
                     # reset iff w + 1 >= samples
                     t = truth_of(facts, "Ge", v, ("load", ("H", SELF, ("samples",)), 0))
-                    later_zero = any(e2["val"] == ("const", "usize", "0") for _, e2 in st[k + 1:])
+                    # the reset that belongs to THIS increment: a zero store before the next increment (a path may run the loop of a
+                    # batch method more than once)
+                    later_zero = k + 1 < len(st) and st[k + 1][1]["val"] == ("const", "usize", "0")
                     if t is None or later_zero != t:
                         chk.violation("C11.R2", "try_reset|schedule|" + fn["q"], "%s increments w but does not reset exactly when w + 1 >= samples" % fn["q"], fn["span"]["file"], e.get("ln"), fn["q"], None, cfg)
-                elif v == ("const", "usize", "0"):
+                elif v == ("const", "usize", "0") and not (folded is not None and v == folded):
                     seg = p.events[prv:nxt]
                     dk = [x for x in seg if x["ev"] == "call" and (x["q"] or "").endswith("Bloom::clear") and field_ref(x["args"][0], "doorkeeper")]
                     cr = [x for x in seg if x["ev"] == "call" and (x["q"] or "").split("::")[-1] in ("reset", "clear") and "CountMinSketch" in (x["q"] or "")]
